@@ -105,7 +105,7 @@ contains no completion candidate: every candidate comes from the key that equals
 theorem table_no_completion_when_disabled (t : Table) (syl : List Bytes) (delims input : Bytes) (start : Nat)
     (exactKey : Option PrismKey) (expansion : List PrismKey)
     (hk : ∀ k ∈ exactKey.toList, k.length = (trimRightDelims delims input).length) :
-    ∀ c ∈ tableTranslation t syl delims input start false exactKey expansion, c.type = "table" := by
+    ∀ c ∈ tableTranslation false t syl delims input start false exactKey expansion, c.type = "table" := by
   intro c hc
   simp only [tableTranslation, Bool.false_eq_true, if_false, List.mem_map] at hc
   obtain ⟨ce, hce, rfl⟩ := hc
@@ -113,6 +113,27 @@ theorem table_no_completion_when_disabled (t : Table) (syl : List Bytes) (delims
   obtain ⟨x, hx, hs⟩ := drain_mem_same _ { done := [], rest := lookupWords t syl _ exactKey.toList } ce hne hce
   have := lookupWords_remaining t syl _ exactKey.toList hk x hx
   simp [tableCand, hs.2.2.1, this]
+
+/-- the same with the iterator sorted before the first `Peek` (the repaired translator) -/
+theorem table_no_completion_when_disabled_sorted (t : Table) (syl : List Bytes) (delims input : Bytes) (start : Nat)
+    (exactKey : Option PrismKey) (expansion : List PrismKey)
+    (hk : ∀ k ∈ exactKey.toList, k.length = (trimRightDelims delims input).length) :
+    ∀ c ∈ tableTranslation true t syl delims input start false exactKey expansion, c.type = "table" := by
+  intro c hc
+  simp only [tableTranslation, Bool.false_eq_true, if_false, if_true, List.mem_map] at hc
+  obtain ⟨ce, hce, rfl⟩ := hc
+  have hne0 := lookupWords_noEmpty t syl (trimRightDelims delims input).length exactKey.toList
+  have hp := sort_rest_perm { done := [], rest := lookupWords t syl (trimRightDelims delims input).length exactKey.toList }
+  have hne := noEmpty_perm hp hne0
+  obtain ⟨x, hx, hs⟩ := drain_mem_same _ _ ce hne hce
+  have := lookupWords_remaining t syl _ exactKey.toList hk x (hp.mem_iff.mp hx)
+  simp [tableCand, hs.2.2.1, this]
+
+/-- with the iterator sorted first (the repaired translator) the entries whose code equals the input are shown
+best first: the first entry is the head of a chunk that no other chunk's head beats, and so is every later one -/
+theorem table_sorted_head_best (t : Table) (syl : List Bytes) (n : Nat) (keys : List PrismKey) :
+    HeadBest (Iter.sort { done := [], rest := lookupWords t syl n keys }).rest :=
+  sort_headBest _
 
 /-- **table_exact_then_completion_partial** — in what one iterator over word chunks yields, entries whose code
 equals the input (empty remaining code) come before entries whose code extends it, provided the chunk in front
